@@ -34,12 +34,26 @@ def run(pid, replay=None):
         bad = json.loads(open(tf).readlines()[line])
         V.violation("idbuf:replay-accepted", "real MessageIDBuf accepted a replayed / too low id: %s in history %s" % (json.dumps(bad), json.dumps(hists[tno])),
                     {"kind": "idbuf", "case": hists[tno], "trace": t, "rejected_event": bad})
-    extra = {}
-    try:
-        import c_conn
-        extra = c_conn.run_part(pid, V, work, replay)
-    except ImportError:
-        pass
+    import c_conn
+    extra = c_conn.run_part(pid, V, work, replay)
+    # padding clause at cipher level: TLC-enumerated padding / length-field classes against the real crypto.Cipher.Decrypt
+    if not replay or json.load(open(replay))["case"].get("kind") == "cases":
+        pc = vlib.tlc_must_pass(vlib.run_tlc(pid, "padcases", os.path.join(vlib.VERIF, "spec", "Crypto"), "MsgCrypt", "MsgCrypt.cfg", workers=1, timeout=600), "MsgCrypt cases")
+        cases = [c for c in pc.lines if c.get("prop") == "C07"]
+        fb = vlib.build_driver(pid, "fdrv")
+        pf, rf = os.path.join(work, "pad.cases.ndjson"), os.path.join(work, "pad.results.ndjson")
+        vlib.write_ndjson(pf, cases)
+        vlib.run_driver(fb, ["-module", "msgcrypt", "-in", pf, "-out", rf, "-reps", "20" if thorough else "4", "-seed", str(vlib.seed())])
+        res = vlib.read_ndjson(rf)
+        for r_ in res:
+            c = cases[r_["case"]]
+            d = vlib.compare_expect(c["expect"], r_["got"])
+            if "panic" in r_["got"] or d:
+                V.violation("cipher:padding:%s" % json.dumps(c["in"], sort_keys=True), "real Cipher.Decrypt differs from the padding rule of C07: case=%s got=%s" % (
+                    json.dumps(c["in"]), json.dumps(r_["got"])), {"kind": "cases", "case": c, "got": r_["got"]})
+        extra["evaluations"] = extra.get("evaluations", 0) + len(res)
+        extra["distinct"] = extra.get("distinct", 0) + len(cases)
+        log("padding cases: %d cases, %d evaluations" % (len(cases), len(res)))
     cov = {"states": (mc.distinct if mc else 0) + s1 or 1, "transitions": (mc.generated if mc else 0) + s2 or 1,
            "traces_validated_against_impl": acc + extra.get("traces", 0),
            "samples": [{"history": hists[0], "trace": vlib.extract_trace(tf, 0)}] + extra.get("samples", []),
